@@ -353,106 +353,144 @@ Proof.
 Qed.
 
 Section Missing.
+  Variable c : cfg.      (* every statement of this section holds for both values of [fix_gap_run] *)
   Variable found : list (fkey * (frag * list rid)).
   Variable g : gap.
 
-  Lemma missing_rows_first : forall rows prev i,
-    missing_rows found g rows prev i None = []
-    \/ exists f t, missing_rows found g rows prev i None = RF f :: t.
+  (* the separator: gap rows only, and not empty when rows were passed over *)
+  Lemma missing_sep_gaps between : forallb is_gap_row (missing_sep c g between) = true.
   Proof.
-    induction rows as [|r t IH]; intros prev i; cbn [missing_rows]; [left; reflexivity|].
+    unfold missing_sep. destruct (fix_gap_run c && forallb is_gap_row between) eqn:E.
+    - apply andb_prop in E. apply E.
+    - destruct (last between _); reflexivity.
+  Qed.
+
+  Lemma missing_sep_not_nil between : between <> [] -> missing_sep c g between <> [].
+  Proof.
+    intro H. unfold missing_sep. destruct (fix_gap_run c && forallb is_gap_row between); [exact H|].
+    destruct (last between _); discriminate.
+  Qed.
+
+  Lemma gap_prefix_head sp : forallb is_gap_row sp = true -> sp <> [] ->
+    forall f rc b post, sp ++ RF f :: rc <> RF b :: post.
+  Proof.
+    destruct sp as [|[x|x] sp]; cbn [forallb is_gap_row andb app]; intros H N f rc b post E;
+      [congruence|discriminate|discriminate].
+  Qed.
+
+  Lemma gap_prefix_split : forall sp, forallb is_gap_row sp = true ->
+    forall f rc pre a b post, sp ++ RF f :: rc = pre ++ RF a :: RF b :: post ->
+    exists pre0, RF f :: rc = pre0 ++ RF a :: RF b :: post.
+  Proof.
+    induction sp as [|[x|x] sp IH]; cbn [forallb is_gap_row andb app]; intros H f rc pre a b post E.
+    - exists pre. exact E.
+    - discriminate.
+    - destruct pre as [|y pre]; cbn [app] in E; [discriminate|]. injection E as _ E.
+      apply (IH H _ _ _ _ _ _ E).
+  Qed.
+
+  Lemma missing_rows_first : forall rows between i,
+    missing_rows c found g rows between i None = []
+    \/ exists f t, missing_rows c found g rows between i None = RF f :: t.
+  Proof.
+    induction rows as [|r t IH]; intros between i; cbn [missing_rows]; [left; reflexivity|].
     destruct r as [f|gg]; [|apply IH].
     destruct (aget key_eqb found (key_of f)); [apply IH|].
     right. cbn [app]. eauto.
   Qed.
 
-  Lemma missing_rows_last : forall rows prev i la,
-    missing_rows found g rows prev i la = []
-    \/ exists f t, missing_rows found g rows prev i la = t ++ [RF f].
+  Lemma missing_rows_last : forall rows between i la,
+    missing_rows c found g rows between i la = []
+    \/ exists f t, missing_rows c found g rows between i la = t ++ [RF f].
   Proof.
-    induction rows as [|r t IH]; intros prev i la; cbn [missing_rows]; [left; reflexivity|].
+    induction rows as [|r t IH]; intros between i la; cbn [missing_rows]; [left; reflexivity|].
     destruct r as [f|gg]; [|apply IH].
     destruct (aget key_eqb found (key_of f)); [apply IH|].
     right. match goal with |- context [?sep ++ RF f :: ?rec] => set (sp := sep); set (rc := rec) end.
-    destruct (IH (Some (RF f)) (i + 1) (Some i)) as [E|(f' & t' & E)]; fold rc in E; rewrite E.
+    destruct (IH [] (i + 1) (Some i)) as [E|(f' & t' & E)]; fold rc in E; rewrite E.
     - exists f, sp. reflexivity.
     - exists f', (sp ++ RF f :: t'). rewrite <- app_assoc. reflexivity.
   Qed.
 
   Theorem missing_rows_no_terminal_gap_sec : forall rows,
-    missing_rows found g rows None 0 None = []
-    \/ no_terminal_gap (missing_rows found g rows None 0 None).
+    missing_rows c found g rows [] 0 None = []
+    \/ no_terminal_gap (missing_rows c found g rows [] 0 None).
   Proof.
     intro rows.
-    destruct (missing_rows_first rows None 0) as [E|H1]; [left; exact E|].
-    destruct (missing_rows_last rows None 0 None) as [E|H2]; [left; exact E|].
+    destruct (missing_rows_first rows [] 0) as [E|H1]; [left; exact E|].
+    destruct (missing_rows_last rows [] 0 None) as [E|H2]; [left; exact E|].
     right. split; assumption.
   Qed.
 
-  (* with [last_added = Some j], j < i, the output begins with a fragment only
-     if j = i - 1 (the previous input row was the fragment last emitted) and
-     that fragment is the next input row *)
-  Lemma missing_rows_head : forall rows prev i j b post,
-    j < i -> missing_rows found g rows prev i (Some j) = RF b :: post ->
+  (* with [last_added = Some j], j < i, and [between] not empty unless j = i - 1
+     (it is rows[j+1 : i]), the output begins with a fragment only if j = i - 1
+     (the previous input row was the fragment last emitted) and that fragment
+     is the next input row *)
+  Lemma missing_rows_head : forall rows between i j b post,
+    j < i -> (j = i - 1 \/ between <> []) ->
+    missing_rows c found g rows between i (Some j) = RF b :: post ->
     j = i - 1 /\ exists t', rows = RF b :: t'.
   Proof.
-    induction rows as [|r t IH]; intros prev i j b post Hj E; cbn [missing_rows] in E; [discriminate|].
+    induction rows as [|r t IH]; intros between i j b post Hj Hb E; cbn [missing_rows] in E; [discriminate|].
+    assert (Hb' : j = i + 1 - 1 \/ between ++ [r] <> []) by (right; destruct between; discriminate).
     destruct r as [f|gg].
     - destruct (aget key_eqb found (key_of f)).
-      + apply IH in E; [|lia]. destruct E as [E _]. lia.
+      + apply IH in E; [|lia|exact Hb']. destruct E as [E _]. lia.
       + destruct (negb (j =? i - 1)) eqn:N.
-        * destruct prev as [[pf|pg]|]; cbn [app] in E; discriminate.
+        * exfalso. destruct Hb as [Hb|Hb]; [lia|].
+          exact (gap_prefix_head _ (missing_sep_gaps between) (missing_sep_not_nil between Hb) _ _ _ _ E).
         * cbn [app] in E. injection E as -> _. split; [lia|eauto].
-    - apply IH in E; [|lia]. destruct E as [E _]. lia.
+    - apply IH in E; [|lia|exact Hb']. destruct E as [E _]. lia.
   Qed.
 
-  Lemma missing_rows_adjacent_gen : forall rows prev i la a b,
-    (forall j, la = Some j -> j < i) ->
-    adjacent_frags (missing_rows found g rows prev i la) a b -> adjacent_frags rows a b.
+  Lemma missing_rows_adjacent_gen : forall rows between i la a b,
+    (forall j, la = Some j -> j < i /\ (j = i - 1 \/ between <> [])) ->
+    adjacent_frags (missing_rows c found g rows between i la) a b -> adjacent_frags rows a b.
   Proof.
-    induction rows as [|r t IH]; intros prev i la a b Hla (pre & post & E); cbn [missing_rows] in E.
+    induction rows as [|r t IH]; intros between i la a b Hla (pre & post & E); cbn [missing_rows] in E.
     - destruct pre; discriminate.
-    - assert (Hrec : forall prev' la', (forall j, la' = Some j -> j < i + 1) ->
-                adjacent_frags (missing_rows found g t prev' (i + 1) la') a b ->
+    - assert (Hrec : forall between' la',
+                (forall j, la' = Some j -> j < i + 1 /\ (j = i + 1 - 1 \/ between' <> [])) ->
+                adjacent_frags (missing_rows c found g t between' (i + 1) la') a b ->
                 adjacent_frags (r :: t) a b).
-      { intros prev' la' Hl Hadj. destruct (IH _ _ _ _ _ Hl Hadj) as (pre' & post' & ->).
+      { intros between' la' Hl Hadj. destruct (IH _ _ _ _ _ Hl Hadj) as (pre' & post' & ->).
         exists (r :: pre'), post'. reflexivity. }
-      assert (Hla' : forall j, la = Some j -> j < i + 1) by (intros j Hj; specialize (Hla j Hj); lia).
-      destruct r as [f|gg]; [|apply (Hrec (Some (RG gg)) la Hla'); exists pre, post; exact E].
-      destruct (aget key_eqb found (key_of f)); [apply (Hrec (Some (RF f)) la Hla'); exists pre, post; exact E|].
-      assert (Hi : forall j, Some i = Some j -> j < i + 1) by (intros j Hj; injection Hj as <-; lia).
+      assert (Hla' : forall j, la = Some j -> j < i + 1 /\ (j = i + 1 - 1 \/ between ++ [r] <> [])).
+      { intros j Hj. specialize (Hla j Hj). split; [lia|]. right. destruct between; discriminate. }
+      destruct r as [f|gg]; [|apply (Hrec _ la Hla'); exists pre, post; exact E].
+      destruct (aget key_eqb found (key_of f)); [apply (Hrec _ la Hla'); exists pre, post; exact E|].
+      assert (Hi : forall j, Some i = Some j -> j < i + 1 /\ (j = i + 1 - 1 \/ @nil row <> []))
+        by (intros j Hj; injection Hj as <-; lia).
       match type of E with ?sep ++ _ = _ =>
-        assert (Hsep : sep = [] \/ exists x, sep = [RG x]);
-        [ destruct la as [la0|]; [destruct (negb (la0 =? i - 1)); [destruct prev as [[pf|pg]|]|]|]; eauto
+        assert (Hsep : forallb is_gap_row sep = true);
+        [ destruct la as [la0|]; [destruct (negb (la0 =? i - 1)); [apply missing_sep_gaps|]|]; reflexivity
         | set (sp := sep) in *; clearbody sp ]
       end.
-      assert (Hcons : forall pre0, RF f :: missing_rows found g t (Some (RF f)) (i + 1) (Some i)
+      assert (Hcons : forall pre0, RF f :: missing_rows c found g t [] (i + 1) (Some i)
                                    = pre0 ++ RF a :: RF b :: post -> adjacent_frags (RF f :: t) a b).
-      { intros pre0 E0. destruct pre0 as [|c pre0]; cbn [app] in E0.
-        - injection E0 as -> E0. apply missing_rows_head in E0; [|lia].
+      { intros pre0 E0. destruct pre0 as [|x pre0]; cbn [app] in E0.
+        - injection E0 as -> E0. apply missing_rows_head in E0; [|lia|left; lia].
           destruct E0 as [_ (t' & ->)]. exists [], t'. reflexivity.
-        - injection E0 as _ E0. apply (Hrec (Some (RF f)) (Some i) Hi). exists pre0, post. exact E0. }
-      destruct Hsep as [->|(x & ->)]; cbn [app] in E.
-      + apply (Hcons pre). exact E.
-      + destruct pre as [|c pre]; cbn [app] in E; [discriminate|].
-        injection E as _ E. apply (Hcons pre). exact E.
+        - injection E0 as _ E0. apply (Hrec [] (Some i) Hi). exists pre0, post. exact E0. }
+      destruct (gap_prefix_split sp Hsep _ _ _ _ _ _ E) as (pre0 & E0).
+      apply (Hcons pre0). exact E0.
   Qed.
 End Missing.
 
-Theorem missing_rows_no_terminal_gap : forall found g rows,
-  missing_rows found g rows None 0 None = []
-  \/ no_terminal_gap (missing_rows found g rows None 0 None).
+Theorem missing_rows_no_terminal_gap : forall c found g rows,
+  missing_rows c found g rows [] 0 None = []
+  \/ no_terminal_gap (missing_rows c found g rows [] 0 None).
 Proof. exact missing_rows_no_terminal_gap_sec. Qed.
 
-Theorem missing_rows_adjacent : forall found g rows a b,
-  adjacent_frags (missing_rows found g rows None 0 None) a b -> adjacent_frags rows a b.
+Theorem missing_rows_adjacent : forall c found g rows a b,
+  adjacent_frags (missing_rows c found g rows [] 0 None) a b -> adjacent_frags rows a b.
 Proof.
-  intros found g rows a b. apply missing_rows_adjacent_gen. intros j Hj. discriminate.
+  intros c found g rows a b. apply missing_rows_adjacent_gen. intros j Hj. discriminate.
 Qed.
 
 (* ==================================================== 7: the old code *)
 Theorem legacy_leftover_refuted : exists g p1 p2 k b x y,
-  let c := mkCfg true false true true in
+  let c := mkCfg true false true true true in
   aget fuse_key_eqb (fold_left (fuse_step c g) [p1; p2] []) k = Some b
   /\ adjacent_frags (sc_rows b) x y
   /\ ~ adjacent_frags (sc_rows (fst p1)) x y /\ ~ adjacent_frags (sc_rows (fst p2)) x y.
